@@ -87,6 +87,8 @@ pub struct Cfg {
     pub unicode: bool,
     /// reference model of a pre-populated base image
     pub model0: Option<Arc<Model>>,
+    /// order in which the mount options are given to the builder (0..=3): the result must not depend on it
+    pub opts_order: u8,
 }
 
 impl Cfg {
@@ -100,6 +102,7 @@ impl Cfg {
             candidates: None,
             unicode: true,
             model0: None,
+            opts_order: 0,
         }
     }
 }
@@ -402,9 +405,22 @@ pub fn guarded<R>(f: impl FnOnce() -> R) -> Result<R, String> {
 // ---------------------------------------------------------------- helpers on the real library
 
 pub fn mount(dev: MemDev, cfg: &Cfg, ctr: &Rc<Cell<u32>>) -> Result<Fs, Error<DevErr>> {
-    let opts = FsOptions::new()
-        .time_provider(Clock { ticking: cfg.ticking, ctr: ctr.clone() })
-        .update_accessed_date(cfg.atime);
+    let clock = Clock { ticking: cfg.ticking, ctr: ctr.clone() };
+    // the strict flag defaults to true (the value used when nothing is said); whatever the order of the builder calls,
+    // every option keeps the value it was given
+    let opts = match cfg.opts_order {
+        0 => FsOptions::new().time_provider(clock).update_accessed_date(cfg.atime),
+        1 => FsOptions::new().update_accessed_date(cfg.atime).time_provider(clock),
+        2 => FsOptions::new().update_accessed_date(cfg.atime).strict(true).oem_cp_converter(LossyOemCpConverter::new()).time_provider(clock),
+        _ => {
+            let o = FsOptions::new().strict(true).time_provider(clock).oem_cp_converter(LossyOemCpConverter::new());
+            if cfg.atime {
+                o.update_accessed_date(true)
+            } else {
+                o
+            }
+        }
+    };
     FileSystem::new(dev, opts)
 }
 
